@@ -62,7 +62,7 @@ def c14(tier=None):
 
 
 def c11(tier=None):
-    c = Check("C11", ["Wasp.Properties.Facts.Wiring", "Wasp.Properties.AnswerLost", "Wasp.Properties.C11Record", "Wasp.Properties.C11Reach", "Wasp.Properties.C11", "Wasp.Properties.C11Time", "Wasp.Properties.Reachable", "Wasp.Properties.C09", "Wasp.Properties.C08", "Wasp.Properties.Facts.C11"], tier)
+    c = Check("C11", ["Wasp.Properties.Facts.Wiring", "Wasp.Properties.AnswerLost", "Wasp.Properties.C11Record", "Wasp.Properties.C11Reach", "Wasp.Properties.C01SessLit", "Wasp.Properties.C11", "Wasp.Properties.C11Time", "Wasp.Properties.Reachable", "Wasp.Properties.C09", "Wasp.Properties.C08", "Wasp.Properties.Facts.C11"], tier)
     c.build()
     samples = []
     scs = [gen_lifecycle(c.rng, c.rng.choice([1, 2, 3]), 1, takeover=0.15) for _ in range(n_of(c, 12, 160))]
@@ -111,7 +111,7 @@ def c13(tier=None):
 
 
 def c17(tier=None):
-    c = Check("C17", ["Wasp.Properties.Facts.Wiring", "Wasp.Properties.C17", "Wasp.Properties.C17E2E", "Wasp.Proofs.Generated", "Wasp.Properties.Facts.C17"], tier)
+    c = Check("C17", ["Wasp.Properties.Facts.Wiring", "Wasp.Properties.C17", "Wasp.Properties.C01SessLit", "Wasp.Properties.C17E2E", "Wasp.Proofs.Generated", "Wasp.Properties.Facts.C17"], tier)
     c.build()
     samples = []
     scs = [gen_converged(c.rng, c.rng.choice([1, 2]), c.rng.choice([2, 3]), c.rng.choice([12, 18]), {"pub": 8, "sub": 5, "end": 2}) for _ in range(n_of(c, 10, 150))]
